@@ -716,6 +716,9 @@ async fn scenario(c: C06Case) -> Obs6 {
             Hostile::Mutated { .. } => classes.insert("mutated_capture".to_string()),
             Hostile::Structured { .. } => classes.insert("structured".to_string()),
         };
+        if std::env::var("C06_DEBUG").is_ok() {
+            eprintln!("DEBUG inject {}", bytes.iter().map(|b| format!("{b:02x}")).collect::<String>());
+        }
         net::inject(0, bytes);
         exec::sleep_ms(1 + *pause as u64).await;
         if *pause > 0 {
@@ -779,6 +782,26 @@ async fn scenario(c: C06Case) -> Obs6 {
             break;
         }
         exec::sleep_ms(100).await;
+    }
+    if std::env::var("C06_DEBUG").is_ok() {
+        {
+            use dust_dds::builtin_topics::{DCPS_PUBLICATION, PublicationBuiltinTopicData};
+            let bs = pv.get_builtin_subscriber();
+            let br = bs.lookup_datareader::<PublicationBuiltinTopicData>(DCPS_PUBLICATION).await.unwrap().unwrap();
+            match br.read(100, ANY_SAMPLE_STATE, ANY_VIEW_STATE, ANY_INSTANCE_STATE).await {
+                Ok(v) => {
+                    for s in v {
+                        eprintln!("DEBUG victim DCPS_PUBLICATION valid={} ih={:?} state={:?} topic={:?}", s.sample_info.valid_data, s.sample_info.instance_handle, s.sample_info.instance_state, s.data.as_ref().map(|d| d.topic_name().to_string()));
+                    }
+                }
+                Err(e) => eprintln!("DEBUG victim DCPS_PUBLICATION read error {e:?}"),
+            }
+            eprintln!("DEBUG victim discovered participants {:?}", pv.get_discovered_participants().await);
+        }
+        eprintln!("DEBUG rv subscription_matched {:?}", rv.get_subscription_matched_status().await);
+        eprintln!("DEBUG rv matched pubs {:?}", rv.get_matched_publications().await);
+        eprintln!("DEBUG wn handle {:?} matched subs {:?}", wn.get_instance_handle(), wn.get_matched_subscriptions().await);
+        eprintln!("DEBUG rv handle {:?} wp handle {:?}", rv.get_instance_handle(), wp.get_instance_handle());
     }
     if !got_n {
         o.verdict = Some(("C06:dead:victim-writer-does-not-deliver".into(), "a fresh sample written by the victim never reached the never-spoofed newcomer's reader within 10 s".into()));
